@@ -5,6 +5,8 @@ import (
 	"fmt"
 	"io"
 
+	"github.com/cloudwego/gopkg/protocol/thrift"
+
 	"verif/mc"
 )
 
@@ -33,8 +35,9 @@ func stream(n int) []byte {
 var errX = errors.New("verif: injected source error")
 var errAfter = errors.New("verif: a different error returned by a source that was read again after it had failed")
 
-var termErrs = []error{io.EOF, io.ErrUnexpectedEOF, errX, fmt.Errorf("ctx: %w", errX)}
-var termErrNames = []string{"io.EOF", "io.ErrUnexpectedEOF", "errX", "wrapped(errX)"}
+// the last one is a source error that merely WRAPS a thrift protocol exception (it is not one itself)
+var termErrs = []error{io.EOF, io.ErrUnexpectedEOF, errX, fmt.Errorf("ctx: %w", errX), fmt.Errorf("conn reset while relaying: %w", thrift.NewProtocolException(thrift.INVALID_DATA, "upstream said so"))}
+var termErrNames = []string{"io.EOF", "io.ErrUnexpectedEOF", "errX", "wrapped(errX)", "wraps-a-protocol-exception"}
 
 // ---- EnvReader: harness-owned io.Reader (fault and fragmentation model, DESIGN 4.3) ----
 
